@@ -17,6 +17,7 @@ import (
 	"runtime"
 	"sort"
 	"strings"
+	"sync"
 	"time"
 
 	"verifharness/vlib"
@@ -59,6 +60,10 @@ type entry struct {
 	modelled bool
 	// findingTag: tag given to over-allocation / hang cases of this entry (known finding recogniser)
 	findingTag string
+	// ownGuards: the entry runs its own watchdogs around every call it makes and reports a hang itself; the
+	// child-process time-out is then only a backstop against a wedged child (generous, one retry on a fresh
+	// child: starting a child can take tens of seconds on a loaded machine)
+	ownGuards bool
 }
 
 var entries = map[string]*entry{}
@@ -85,7 +90,8 @@ func inputLen(r *Req) uint64 {
 	return uint64(n)
 }
 
-const hangLimit = 5 * time.Second
+// wall-clock guards are stretched on an overloaded machine (see loadFactor): a hang never returns, a starved call does
+var hangLimit = scaled(5 * time.Second)
 
 // execute runs one request in this process under recover and the guards.
 func execute(r *Req) (o Obs) {
@@ -145,7 +151,9 @@ func execute(r *Req) (o Obs) {
 var child = &vlib.Child{}
 
 // observe runs the request in the right place (child for risky entries).
-func observe(r *Req) Obs {
+func observe(r *Req) Obs { return observeOn(child, r) }
+
+func observeOn(child *vlib.Child, r *Req) Obs {
 	e := entries[r.Kind]
 	if e == nil || !e.child {
 		return execute(r)
@@ -153,7 +161,14 @@ func observe(r *Req) Obs {
 	rr := *r
 	rr.Obs = nil
 	b, _ := json.Marshal(&rr)
-	resp, fail := child.Call(b, 20*time.Second)
+	limit := scaled(20*time.Second) + 5*time.Second
+	if e.ownGuards {
+		limit = 90 * time.Second
+	}
+	resp, fail := child.Call(b, limit)
+	if e.ownGuards && strings.HasPrefix(fail, "timeout") {
+		resp, fail = child.Call(b, limit)
+	}
 	if fail != "" {
 		if strings.HasPrefix(fail, "timeout") {
 			return Obs{Cls: "hang", Err: fail}
@@ -237,12 +252,47 @@ type harness struct {
 	perKind map[string]int
 }
 
-func (h *harness) emit(r *Req) {
+// emitMany observes independent child-process cases on a small pool of children in parallel (cases that mostly
+// wait: a hang costs its watchdog once per pool slot, not once per case) and records them in the given order.
+func (h *harness) emitMany(reqs []*Req) {
+	const workers = 8
+	if len(reqs) < 2 {
+		for _, r := range reqs {
+			h.emit(r)
+		}
+		return
+	}
+	obs := make([]Obs, len(reqs))
+	next := make(chan int, len(reqs))
+	for i := range reqs {
+		next <- i
+	}
+	close(next)
+	var wg sync.WaitGroup
+	for w := 0; w < workers; w++ {
+		wg.Add(1)
+		go func() {
+			defer wg.Done()
+			c := &vlib.Child{}
+			defer c.Close()
+			for i := range next {
+				obs[i] = observeOn(c, reqs[i])
+			}
+		}()
+	}
+	wg.Wait()
+	for i, r := range reqs {
+		h.emitObs(r, obs[i])
+	}
+}
+
+func (h *harness) emit(r *Req) { h.emitObs(r, observe(r)) }
+
+func (h *harness) emitObs(r *Req, o Obs) {
 	e := entries[r.Kind]
 	if e == nil {
 		panic("unknown kind " + r.Kind)
 	}
-	o := observe(r)
 	r.Obs = &o
 	if (o.Cls == "alloc" || o.Cls == "hang") && e.findingTag != "" {
 		// a listed/listable finding is recognised by (entry point, violation class)
@@ -323,6 +373,7 @@ func main() {
 	defer stParentSetup()()
 
 	if opts.Replay != "" {
+		var batch []*Req
 		for _, raw := range vlib.ReadReplay(opts.Replay) {
 			var r Req
 			if err := json.Unmarshal(raw, &r); err != nil || r.Kind == "" {
@@ -333,8 +384,14 @@ func main() {
 				continue
 			}
 			r.Obs = nil
+			if r.Kind == stallKind {
+				rc := r
+				batch = append(batch, &rc)
+				continue
+			}
 			h.emit(&r)
 		}
+		h.emitMany(batch)
 	} else {
 		mult := opts.Budget
 		if opts.Tier == "thorough" {
